@@ -2707,7 +2707,9 @@ pub mod config {
         /// Implies `no_table_borders()`
         pub fn raw_mode(mut self, raw: bool) -> Self {
             self.raw = raw;
-            self.draw_borders = false;
+            if raw {
+                self.draw_borders = false;
+            }
             self
         }
 
